@@ -323,19 +323,23 @@ class PythonToIrCompiler:
         i_phi.set_incoming(entry_block, i_init)
         self.emit(ir.CJump(i_phi, "<", n2, body_block, final_block))
 
-        # Publish looping variable:
-        self.local_map[statement.target.id] = Var(i_phi, False, ir.i64)
-
-        # Body:
-        self.enter_loop(test_block, final_block)
+        # Body ('continue' must still increment the loop counter):
+        increment_block = self.builder.new_block()
+        self.enter_loop(increment_block, final_block)
         self.builder.set_block(body_block)
+        # The loop variable is an ordinary local variable, which keeps its
+        # last value after the loop:
+        self.store_value(statement.target, i_phi)
         self.gen_statement(statement.body)
         self.leave_loop()
+        self.builder.emit_jump(increment_block)
 
-        # Increment loop variable:
+        # Increment loop counter. Note that the body might end in another
+        # block than it started in.
+        self.builder.set_block(increment_block)
         one = self.builder.emit_const(1, ir.i64)
         i_inc = self.builder.emit_add(i_phi, one, ir.i64)
-        i_phi.set_incoming(body_block, i_inc)
+        i_phi.set_incoming(increment_block, i_inc)
 
         # Jump to start again:
         self.builder.emit_jump(test_block)
